@@ -556,7 +556,7 @@ func run(ctx *Ctx) *Result {
 	}
 	n := ctx.N(600, 20000)
 	if prop == "C10" {
-		n = ctx.N(1500, 8000)
+		n = ctx.N(800, 8000)
 	}
 	for i := 0; i < n; i++ {
 		runCase(genCase(ctx.Rng.Fork()))
